@@ -124,8 +124,17 @@ P("C16", [f"{ING}:_sanitize_pixels", f"{ING}:_validate_pixels", f"{RQ}:FillLower
 P("C17", [], "bounded/C17.py", "Bounded stand-in only so far.", level="other",
   unverified=["create_scool", "create(append_scool=True)", "list_scool_cells"])
 
-P("C18", [], "bounded/C18.py", "Bounded stand-in only so far.", level="other",
-  unverified=["_rename_chroms", "rename_chroms", "Cooler._refresh"])
+P("C18", [f"{CR}:_rename_chroms", f"{CR}:rename_chroms"], "bounded/C18.py",
+  "Proof core: _rename_chroms over a ghost operation log of the HDF5 group, for all tables, maps and both "
+  "chromosome encodings (plus the enum-header-too-large fallback): the only datasets removed or created are "
+  "chroms/name and - for an enum column - bins/chrom; chroms/name afterwards holds the old names with the map "
+  "applied pointwise in the original order; the bins/chrom codes written are the codes read and the enum sends "
+  "the i-th new name to i; rename_chroms applies the caller's map through a writable handle and refreshes the "
+  "object after closing it.  pandas rename/set_index, Series.cat.codes and h5py delete/create_dataset are assumed "
+  "contracts (stubs).  What a reopened Cooler then reads, chains of renamings and name-based queries are "
+  "explored by the bounded tier.", level="other",
+  unverified=["Cooler._refresh", "pandas DataFrame.rename / Categorical codes (assumed)",
+              "h5py dataset replacement and fixed-width string dtype (assumed)"])
 
 P("C19", [f"{UT}:parse_humanized", f"{UT}:parse_cooler_uri", f"{UT}:parse_region"], "bounded/C19.py",
   "Proof of the numeric core of parse_humanized (exact scaling for every numeral value D/10^k and every listed unit "
